@@ -80,15 +80,16 @@ type vmbReplica struct {
 }
 
 type vmbWorld struct {
-	t        *testing.T
-	gns      *common.Genesis
-	network  crypto.Hash
-	members  []*vmbMember // index = rank-1
-	gen      []*vmbMember // genesis members in id order
-	extra    []*vmbMember // extra members in id order
-	byId     map[crypto.Hash]*vmbMember
-	carrier  crypto.Hash
-	replicas []*vmbReplica
+	t          *testing.T
+	gns        *common.Genesis
+	network    crypto.Hash
+	members    []*vmbMember // index = rank-1
+	gen        []*vmbMember // genesis members in id order
+	extra      []*vmbMember // extra members in id order
+	byId       map[crypto.Hash]*vmbMember
+	carrier    crypto.Hash
+	replicas   []*vmbReplica
+	custodians map[string]int // custodian address -> update number (0 = genesis)
 }
 
 // vmbHarnessError is a failure of the harness itself (never a verdict): it aborts the run (exit 2).
@@ -110,7 +111,7 @@ func vmbSignerAddress(label string) common.Address {
 }
 
 func vmbNewWorld(t *testing.T, wc *vmbWorldCase, salt string) *vmbWorld {
-	w := &vmbWorld{t: t, byId: make(map[crypto.Hash]*vmbMember)}
+	w := &vmbWorld{t: t, byId: make(map[crypto.Hash]*vmbMember), custodians: make(map[string]int)}
 	var sb strings.Builder
 	cust := vmbSignerAddress(salt + "/custodian")
 	fmt.Fprintf(&sb, `{"epoch":%d,"custodian":%q,"nodes":[`, vmbEpoch, cust.String())
@@ -135,6 +136,7 @@ func vmbNewWorld(t *testing.T, wc *vmbWorldCase, salt string) *vmbWorld {
 		vmbFail("genesis: %v", err)
 	}
 	w.gns = &gns
+	w.custodians[cust.String()] = 0
 	w.network = gns.NetworkId()
 	for i := 0; i < wc.X; i++ {
 		all = append(all, &vmbMember{
@@ -287,6 +289,13 @@ func (w *vmbWorld) membershipTx(m *vmbMember, st string, tick uint64) (*common.V
 		vmbFail("bad state %q", st)
 	}
 	tx.Extra = extra
+	if spend && len(w.replicas) > 0 {
+		// as the real builders do: reference the last consensus operation (needed by SetupNode's
+		// reloadConsensusState when this is the last snapshot before a restart)
+		if last, err := w.replicas[0].store.ReadLastConsensusSnapshot(); err == nil && last != nil {
+			tx.References = last.Transactions
+		}
+	}
 	return tx.AsVersioned(), spend
 }
 
@@ -502,7 +511,7 @@ func (w *vmbWorld) queryValid(st vmbStep, seq int) vM {
 		payee:  vmbSignerAddress(fmt.Sprintf("vmb-fresh-p/%d/%d", st.T, seq)),
 	}
 	ptx := common.NewTransactionV5(common.XINAssetId)
-	ptx.Inputs = []*common.Input{{Genesis: w.network[:]}}
+	ptx.AddInput(crypto.Blake3Hash([]byte(fmt.Sprintf("vmb-fresh-in/%d/%d", st.T, seq))), 0)
 	ptx.AddOutputWithType(common.OutputTypeNodePledge, nil, common.Script{}, common.KernelNodePledgeAmount, []byte{})
 	ptx.Extra = append(fresh.signer.PublicSpendKey[:], fresh.payee.PublicSpendKey[:]...)
 	det := vM{}
@@ -554,6 +563,142 @@ func (w *vmbWorld) queryValid(st vmbStep, seq int) vM {
 	return ev
 }
 
+// ---------------------------------------------------------------- C11
+// appendCustodian writes custodian update number k (>= 1) at the tick: a transaction with a
+// CustodianUpdateNodes output whose extra is a fully signed update (new custodian address, seven
+// node entries with real signatures, sorted), finalized through WriteSnapshot.
+func (w *vmbWorld) appendCustodian(k int, tick uint64) (string, string) {
+	cust := vmbSignerAddress(fmt.Sprintf("vmb-cust/%s/%d", w.network, k))
+	extra := append(cust.PublicSpendKey[:], cust.PublicViewKey[:]...)
+	type ent struct {
+		key crypto.Key
+		b   []byte
+	}
+	var ents []ent
+	for i := 0; i < 7; i++ {
+		nc := vmbSignerAddress(fmt.Sprintf("vmb-cust-nc/%s/%d/%d", w.network, k, i))
+		np := vmbSignerAddress(fmt.Sprintf("vmb-cust-np/%s/%d/%d", w.network, k, i))
+		sg := w.gen[i%len(w.gen)].signer
+		b := common.EncodeCustodianNode(&nc, &np, &sg.PrivateSpendKey, &np.PrivateSpendKey, &nc.PrivateSpendKey, w.network)
+		ents = append(ents, ent{nc.PublicSpendKey, b})
+	}
+	sort.Slice(ents, func(i, j int) bool { return strings.Compare(string(ents[i].key[:]), string(ents[j].key[:])) < 0 })
+	for _, e := range ents {
+		extra = append(extra, e.b...)
+	}
+	sig := cust.PrivateSpendKey.Sign(crypto.Blake3Hash(extra))
+	extra = append(extra, sig[:]...)
+	w.custodians[cust.String()] = k
+
+	tx := common.NewTransactionV5(common.XINAssetId)
+	tx.Inputs = []*common.Input{{Genesis: w.network[:]}}
+	si := crypto.Blake3Hash([]byte(fmt.Sprintf("vmb-cust-out/%s/%d", w.network, k)))
+	vanish := common.NewAddressFromSeedInternalVanish(make([]byte, 64))
+	tx.AddOutputWithType(common.OutputTypeCustodianUpdateNodes, []*common.Address{&vanish}, common.NewThresholdScript(64), common.NewInteger(1), append(si[:], si[:]...))
+	tx.Extra = extra
+	ver := tx.AsVersioned()
+	res, detail := "ok", ""
+	for _, rp := range w.replicas {
+		r, d := vCall(func() error {
+			head, err := rp.store.ReadRound(w.carrier)
+			if err != nil {
+				return err
+			}
+			if err := rp.store.WriteTransaction(ver); err != nil {
+				return err
+			}
+			s := &common.Snapshot{
+				Version:     common.SnapshotVersionCommonEncoding,
+				NodeId:      w.carrier,
+				RoundNumber: head.Number,
+				References:  head.References,
+				Timestamp:   w.real(tick),
+			}
+			s.AddTransaction(ver.PayloadHash())
+			s.Hash = s.PayloadHash()
+			topo := &common.SnapshotWithTopologicalOrder{Snapshot: s, TopologicalOrder: rp.topo}
+			if err := rp.store.WriteSnapshot(topo, nil); err != nil {
+				return err
+			}
+			rp.topo++
+			return nil
+		})
+		if r != "ok" {
+			res, detail = r, d
+		}
+	}
+	return res, detail
+}
+
+// restart closes replica 0 (Node, store, caches) and builds it again with the real SetupNode on
+// the same directory: every answer after it is served cold.
+func (w *vmbWorld) restart() {
+	old := w.replicas[0]
+	old.close(false)
+	w.replicas[0] = w.openReplica(0, old.dir)
+}
+
+func (w *vmbWorld) queryViews(st vmbStep) vM {
+	rp := w.replicas[0]
+	node := rp.node
+	ts := w.real(st.T)
+	ev := vM{"ev": "Views", "t": st.T, "cold": st.Cold}
+	view := vM{}
+	res, detail := vCall(func() error {
+		list := []vM{}
+		for _, cn := range node.NodesListWithoutState(ts, false) {
+			list = append(list, vM{"n": w.rankOf(cn.IdForNetwork), "st": cn.State, "ci": cn.ConsensusIndex})
+		}
+		view["list"] = list
+		acc := []int{}
+		for _, cn := range node.NodesListWithoutState(ts, true) {
+			acc = append(acc, w.rankOf(cn.IdForNetwork))
+		}
+		view["acc"] = acc
+		chain := node.getOrCreateChain(w.carrier)
+		ids, _ := chain.ConsensusKeys(1, ts)
+		view["keys"] = w.ranks(ids)
+		view["thrF"] = node.ConsensusThreshold(ts, true)
+		view["thrN"] = node.ConsensusThreshold(ts, false)
+		view["pledging"] = 0
+		if pn := node.PledgingNode(ts); pn != nil {
+			view["pledging"] = w.rankOf(pn.IdForNetwork)
+		}
+		return nil
+	})
+	er, el := w.electAll(node, ts)
+	view["electres"] = er
+	if er == "ok" {
+		el = el[:5]
+	}
+	view["elect"] = el
+	ev["res"] = res
+	if res != "ok" {
+		ev["detail"] = detail
+	}
+	ev["view"] = view
+	cust := vM{"k": 0, "ts": 0, "nodes": 0}
+	cres, _ := vCall(func() error {
+		cur, err := rp.store.ReadCustodian(ts)
+		if err != nil {
+			return err
+		}
+		if cur == nil {
+			return nil
+		}
+		k, ok := w.custodians[cur.Custodian.String()]
+		if !ok {
+			k = -1
+		}
+		e := uint64(time.Unix(vmbEpoch, 0).UnixNano())
+		cust = vM{"k": k + 1, "ts": (cur.Timestamp - e) / vmbTick, "nodes": len(cur.Nodes)}
+		return nil
+	})
+	ev["custres"] = cres
+	ev["cust"] = cust
+	return ev
+}
+
 // ---------------------------------------------------------------- driver
 func (w *vmbWorld) run(wc *vmbWorldCase, emit func(vM)) {
 	emit(vM{"ev": "Reset", "w": wc.Id, "gen": w.genesisRanks(), "pool": len(w.members),
@@ -571,6 +716,18 @@ func (w *vmbWorld) run(wc *vmbWorldCase, emit func(vM)) {
 			emit(ev)
 		case "c10":
 			emit(w.queryC10(st))
+		case "cust":
+			res, detail := w.appendCustodian(st.Order, st.Ts)
+			ev := vM{"ev": "Cust", "ts": st.Ts, "k": st.Order, "res": res}
+			if res != "ok" {
+				ev["detail"] = detail
+			}
+			emit(ev)
+		case "views":
+			if st.Cold {
+				w.restart()
+			}
+			emit(w.queryViews(st))
 		case "elect":
 			emit(w.queryElect(st))
 		case "hours":
